@@ -351,9 +351,297 @@ def handleLitF (ws : List String) : Option String := do
       let lights := ls.map (·.light)
       let rcPix := rayCasterPixel scene Float.sqrt lights primary
       let sample : Nat → V3 Float × Nat := fun g =>
-        recurse scene Float.sqrt Float.abs 0 eps lights 0 true g primary ⟨1, 1, 1⟩
+        recurse scene Float.sqrt Float.abs 0 eps lights (fun g => (0, g)) [] 0 true g primary ⟨1, 1, 1⟩
       let rtPix := (estimateColor Float.ofNat ⟨nS, 0, false⟩ (fun _ _ _ => false) sample 0).1
       some s!"{showV3 hexOfFloat rcPix} {showV3 hexOfFloat rtPix}"
+    | _ => none
+  | _ => none
+
+/-- `dircamf pd tiny margin loF hiF min max dir` (Float): the whole of `DirectionalCamera`,
+bisection included, bit-for-bit: origin, ScreenX, ScreenY of the returned camera. -/
+def handleDirCamF (ws : List String) : Option String := do
+  match ws with
+  | pd :: tiny :: margin :: loF :: hiF :: rest =>
+    let pd ← floatOfHex pd; let tiny ← floatOfHex tiny; let margin ← floatOfHex margin
+    let loF ← floatOfHex loF; let hiF ← floatOfHex hiF
+    let (mn, rest) ← parseV3 floatOfHex rest
+    let (mx, rest) ← parseV3 floatOfHex rest
+    let (dir, rest) ← parseV3 floatOfHex rest
+    if !rest.isEmpty then none
+    let cam := directionalCamera Float.sqrt tiny pd margin loF hiF mn mx dir
+    some s!"{showV3 hexOfFloat cam.origin} {showV3 hexOfFloat cam.screenX} {showV3 hexOfFloat cam.screenY}"
+  | _ => none
+
+/-! ### Image accessors -/
+
+def showLabels (xs : List Int) : String := "[" ++ ",".intercalate (xs.map toString) ++ "]"
+
+partial def runImOps (img : Img Int) : List String → List String → Option (List String)
+  | [], acc => some acc.reverse
+  | "s" :: x :: y :: v :: rest, acc => do
+    let x ← x.toNat?; let y ← y.toNat?; let v ← v.toInt?
+    if x < img.width && y < img.height then runImOps (img.set x y v) rest ("ok" :: acc)
+    else runImOps img rest ("panic" :: acc)
+  | "a" :: x :: y :: rest, acc => do
+    let x ← x.toNat?; let y ← y.toNat?
+    if x < img.width && y < img.height then runImOps img rest (toString (img.at 0 x y) :: acc)
+    else runImOps img rest ("panic" :: acc)
+  | "A" :: v :: rest, acc => do
+    runImOps (img.setAll (← v.toInt?)) rest ("ok" :: acc)
+  | "c" :: w1 :: h1 :: x :: y :: base :: rest, acc => do
+    let w1 ← w1.toNat?; let h1 ← h1.toNat?; let x ← x.toNat?; let y ← y.toNat?; let base ← base.toInt?
+    let src : Img Int := ⟨(List.range (w1 * h1)).map fun (k : Nat) => base + Int.ofNat k, w1, h1⟩
+    runImOps (img.copyFrom src x y) rest ("ok" :: acc)
+  | "d" :: rest, acc => runImOps img rest (showLabels img.data :: acc)
+  | _, _ => none
+
+/-- `imops w h ops…` -/
+def handleImOps (ws : List String) : Option String := do
+  match ws with
+  | w :: h :: ops =>
+    let outs ← runImOps (Img.new (0 : Int) (← w.toNat?) (← h.toNat?)) ops []
+    some (" ".intercalate outs)
+  | _ => none
+
+/-- `dsq|dsf w h f data…` -/
+def handleDownsample {α} [Add α] [Mul α] [Div α] [OfNat α 0] [OfNat α 1] (sc : Sc α) (ws : List String) :
+    Option String := do
+  match ws with
+  | w :: h :: f :: rest =>
+    let w ← w.toNat?; let h ← h.toNat?; let f ← f.toNat?
+    let (xs, rest) ← parseV3s sc.parse (w * h) rest
+    if !rest.isEmpty then none
+    if f == 0 then none
+    let out := (⟨xs, w, h⟩ : Img (V3 α)).downsample sc.cast f
+    some (" ".intercalate (s!"{out.width} {out.height}" :: out.data.map (showV3 sc.show)))
+  | _ => none
+
+/-! ### `recurse` with bounces, scripted materials / focus points, recorded casts -/
+
+structure ScriptMat where
+  amb : V3 Float
+  em : V3 Float
+  rho : V3 Float
+  base : V3 Float
+  a : Float
+  q : Float
+
+def parseScriptMats : Nat → List String → Option (List ScriptMat × List String)
+  | 0, ws => some ([], ws)
+  | k + 1, ws => do
+    let (amb, ws) ← parseV3 floatOfHex ws
+    let (em, ws) ← parseV3 floatOfHex ws
+    let (rho, ws) ← parseV3 floatOfHex ws
+    let (base, ws) ← parseV3 floatOfHex ws
+    match ws with
+    | a :: q :: ws =>
+      let (rest, ws) ← parseScriptMats k ws
+      some (⟨amb, em, rho, base, ← floatOfHex a, ← floatOfHex q⟩ :: rest, ws)
+    | _ => none
+
+def ScriptMat.toMat (m : ScriptMat) : Mat Float Nat :=
+  ⟨m.em, m.amb, fun _ _ _ => m.rho,
+   fun g normal _ => ((m.base.add (normal.scale m.a)).normalize Float.sqrt, g),
+   fun _ _ _ => m.q⟩
+
+def parseScriptFocus : Nat → List String → Option (List (FocusPt Float Nat) × List String)
+  | 0, ws => some ([], ws)
+  | k + 1, ws => do
+    match ws with
+    | p :: ws =>
+      let p ← floatOfHex p
+      let (base, ws) ← parseV3 floatOfHex ws
+      match ws with
+      | a :: b :: ws =>
+        let a ← floatOfHex a; let b ← floatOfHex b
+        let (target, ws) ← parseV3 floatOfHex ws
+        match ws with
+        | q :: _tag :: ws =>
+          let q ← floatOfHex q
+          let (rest, ws) ← parseScriptFocus k ws
+          let f : FocusPt Float Nat := ⟨p,
+            fun g _ point normal _ =>
+              (((base.add (normal.scale a)).add ((point.sub target).scale b)).normalize Float.sqrt, g),
+            fun _ _ _ _ _ => q⟩
+          some (f :: rest, ws)
+        | _ => none
+      | _ => none
+    | _ => none
+
+structure CastRec where
+  key : String
+  hit : Option (Float × V3 Float × Nat)
+
+def rayKey (r : Ray Float) : String := showV3 hexOfFloat r.origin ++ " " ++ showV3 hexOfFloat r.dir
+
+def parseCastRecs : Nat → List String → Option (List CastRec × List String)
+  | 0, ws => some ([], ws)
+  | k + 1, ws => do
+    let (o, ws) ← parseV3 floatOfHex ws
+    let (d, ws) ← parseV3 floatOfHex ws
+    match ws with
+    | f :: s :: ws =>
+      let s ← floatOfHex s
+      let (n, ws) ← parseV3 floatOfHex ws
+      match ws with
+      | mid :: ws =>
+        let (rest, ws) ← parseCastRecs k ws
+        let hit := if f == "1" then some (s, n, (mid.toNat?).getD 0) else none
+        some (⟨rayKey ⟨o, d⟩, hit⟩ :: rest, ws)
+      | _ => none
+    | _ => none
+
+/-- The scene oracle: what the real scene answered for that exact ray; a ray the real code never
+cast is answered with a NaN hit so that the disagreement is visible in the output. -/
+def recordedScene (mats : List (Mat Float Nat)) (recs : List CastRec) : Ray Float → Option (Hit Float × Mat Float Nat) :=
+  fun r =>
+    let dflt : Mat Float Nat := ⟨V3.zero, V3.zero, fun _ _ _ => V3.zero, fun g n _ => (n, g), fun _ _ _ => 1⟩
+    match recs.find? (fun e => e.key == rayKey r) with
+    | some e => e.hit.map fun (s, n, mid) => (⟨s, n, mid⟩, mats.getD mid dflt)
+    | none => some (⟨0.0 / 0.0, V3.zero, 0⟩, dflt)
+
+def parseFloatsN : Nat → List String → Option (List Float × List String)
+  | 0, ws => some ([], ws)
+  | k + 1, w :: ws => do
+    let x ← floatOfHex w
+    let (rest, ws) ← parseFloatsN k ws
+    some (x :: rest, ws)
+  | _, _ => none
+
+/-- `bouncef maxDepth cutoff eps ray nm mats… nf focus… nu us… nr recs…` → one `recurse` sample. -/
+def handleBounceF (ws : List String) : Option String := do
+  match ws with
+  | md :: cutoff :: eps :: ws =>
+    let md ← md.toNat?; let cutoff ← floatOfHex cutoff; let eps ← floatOfHex eps
+    let (o, ws) ← parseV3 floatOfHex ws
+    let (d, ws) ← parseV3 floatOfHex ws
+    match ws with
+    | nm :: ws =>
+      let (mats, ws) ← parseScriptMats (← nm.toNat?) ws
+      match ws with
+      | nf :: ws =>
+        let (focus, ws) ← parseScriptFocus (← nf.toNat?) ws
+        match ws with
+        | nu :: ws =>
+          let (us, ws) ← parseFloatsN (← nu.toNat?) ws
+          match ws with
+          | nr :: ws =>
+            let (recs, rest) ← parseCastRecs (← nr.toNat?) ws
+            if !rest.isEmpty then none
+            let scene := recordedScene (mats.map (·.toMat)) recs
+            let uniform : Nat → Float × Nat := fun g => (us.getD g 0, g + 1)
+            let v := (recurse scene Float.sqrt Float.abs cutoff eps [] uniform focus md true 0 ⟨o, d⟩ ⟨1, 1, 1⟩).1
+            some (showV3 hexOfFloat v)
+          | _ => none
+        | _ => none
+      | _ => none
+    | _ => none
+  | _ => none
+
+/-! ### Bidirectional path tracer bookkeeping -/
+
+/-- `pendf minLength cutoff n masks… nu us…` → `endedAt final draws scales…`. -/
+def handlePEndF (ws : List String) : Option String := do
+  match ws with
+  | ml :: cutoff :: n :: ws =>
+    let ml ← ml.toNat?; let cutoff ← floatOfHex cutoff; let n ← n.toNat?
+    let (masks, ws) ← parseV3s floatOfHex n ws
+    match ws with
+    | nu :: ws =>
+      let (us, rest) ← parseFloatsN (← nu.toNat?) ws
+      if !rest.isEmpty then none
+      let uniform : Nat → Float × Nat := fun g => (us.getD g 0, g + 1)
+      let rec go (i : Nat) (ms : List (V3 Float)) (pe : PathEnder Float) (g : Nat) (scales : List Float) :
+          Int × PathEnder Float × Nat × List Float :=
+        match ms with
+        | [] => (-1, pe, g, scales.reverse)
+        | m :: ms =>
+          let scales := pe.current :: scales
+          let (ended, pe, g) := PathEnder.step ml cutoff uniform pe g i m
+          if ended then (i, pe, g, scales.reverse) else go (i + 1) ms pe g scales
+      let (ended, pe, g, scales) := go 0 masks PathEnder.new 0 []
+      some (" ".intercalate (s!"{ended} {hexOfFloat pe.current} {g}" :: scales.map hexOfFloat))
+    | _ => none
+  | _ => none
+
+def parsePVerts : Nat → List String → Option (List (PVert Float) × List String)
+  | 0, ws => some ([], ws)
+  | k + 1, ws => do
+    let (pt, ws) ← parseV3 floatOfHex ws
+    let (n, ws) ← parseV3 floatOfHex ws
+    let (src, ws) ← parseV3 floatOfHex ws
+    let (dst, ws) ← parseV3 floatOfHex ws
+    let (bsdf, ws) ← parseV3 floatOfHex ws
+    let (em, ws) ← parseV3 floatOfHex ws
+    match ws with
+    | mid :: sd :: dd :: rl :: ws =>
+      let (rest, ws) ← parsePVerts k ws
+      some (⟨pt, n, src, dst, bsdf, em, mid.toNat?, ← floatOfHex sd, ← floatOfHex dd, ← floatOfHex rl⟩ :: rest, ws)
+    | _ => none
+
+/-- `densf fourPi totalLight maxDepth maxLightDepth n verts…` → the densities `Densities` reports. -/
+def handleDensF (ws : List String) : Option String := do
+  match ws with
+  | fp :: tl :: md :: mld :: n :: ws =>
+    let fp ← floatOfHex fp; let tl ← floatOfHex tl
+    let (vs, rest) ← parsePVerts (← n.toNat?) ws
+    if !rest.isEmpty then none
+    let ds := densities Float.abs fp vs tl (← md.toNat?) (← mld.toNat?)
+    some (" ".intercalate (toString ds.length :: ds.map hexOfFloat))
+  | _ => none
+
+def parseBptMats : Nat → List String → Option (List (V3 Float × Float × Float) × List String)
+  | 0, ws => some ([], ws)
+  | k + 1, ws => do
+    let (rho, ws) ← parseV3 floatOfHex ws
+    match ws with
+    | q :: dq :: ws =>
+      let (rest, ws) ← parseBptMats k ws
+      some ((rho, ← floatOfHex q, ← floatOfHex dq) :: rest, ws)
+    | _ => none
+
+/-- `bptf fourPi tiny eps totalLight maxDepth maxLightDepth nm mats… ne eye… nl light… nr recs…`
+→ `rayColor` given the two sampled paths. -/
+def handleBptF (ws : List String) : Option String := do
+  match ws with
+  | fp :: tiny :: eps :: tl :: md :: mld :: nm :: ws =>
+    let fp ← floatOfHex fp; let tiny ← floatOfHex tiny; let eps ← floatOfHex eps; let tl ← floatOfHex tl
+    let md ← md.toNat?; let mld ← mld.toNat?
+    let (mats, ws) ← parseBptMats (← nm.toNat?) ws
+    match ws with
+    | ne :: ws =>
+      let (eye, ws) ← parsePVerts (← ne.toNat?) ws
+      match ws with
+      | nl :: ws =>
+        let (light, ws) ← parsePVerts (← nl.toNat?) ws
+        match ws with
+        | nr :: ws =>
+          let (recs, rest) ← parseCastRecs (← nr.toNat?) ws
+          if !rest.isEmpty then none
+          let mat (id : Nat) := mats.getD id (V3.zero, 1, 1)
+          let me : MatEval Float := ⟨fun id _ _ _ => (mat id).2.1, fun id _ _ _ => (mat id).2.2, fun id _ _ _ => (mat id).1⟩
+          let sceneScale : Ray Float → Option Float := fun r =>
+            match recs.find? (fun e => e.key == rayKey r) with
+            | some e => e.hit.map (·.1)
+            | none => some (0.0 / 0.0)
+          -- every connection the model tests must be a ray the real code cast
+          let combos := allCombos Float.sqrt Float.abs fp me eye light tl eye.length 1 1 ⟨1, 1, 1⟩
+          let known := combos.all fun c =>
+            match c.connect with
+            | some (p1, p2) =>
+              if c.intensity.x + c.intensity.y + c.intensity.z < tiny then true
+              else
+                let dir := (p2.sub p1).normalize Float.sqrt
+                let ray : Ray Float := ⟨p1.add ((dir.normalize Float.sqrt).scale eps), dir⟩
+                recs.any (fun e => e.key == rayKey ray)
+            | none => true
+          if !known then some "unknown-connection-ray"
+          else
+            let v := rayColorFromPaths Float.sqrt Float.abs fp tiny me eye light tl md mld
+              (connectionBlocked Float.sqrt eps sceneScale)
+            some (showV3 hexOfFloat v)
+        | _ => none
+      | _ => none
     | _ => none
   | _ => none
 
@@ -374,6 +662,14 @@ def handleAll (ws : List String) : Option String :=
   | "xprim" :: _how :: _kind :: rest => some (" ".intercalate rest)
   | "img" :: rest => handleImg rest
   | "litf" :: rest => handleLitF rest
+  | "dircamf" :: rest => handleDirCamF rest
+  | "imops" :: rest => handleImOps rest
+  | "bouncef" :: rest => handleBounceF rest
+  | "pendf" :: rest => handlePEndF rest
+  | "densf" :: rest => handleDensF rest
+  | "bptf" :: rest => handleBptF rest
+  | "dsq" :: rest => handleDownsample scRat rest
+  | "dsf" :: rest => handleDownsample scFloat rest
   -- `dircam fov dir min max`: the specification (`directional_camera_contains`) is a constant
   | ["dircam", _, _, _, _, _, _, _, _, _, _] => some "contained"
   | _ => none
